@@ -15,7 +15,18 @@ pub fn partition(r: &mut Rng, d: &[u8]) -> Vec<Vec<u8>> {
 }
 pub fn nonempty_partition(r: &mut Rng, d: &[u8]) -> Vec<Vec<u8>> {
     let mut out = vec![]; let mut i = 0;
-    let style = r.below(4);
+    let style = r.below(6);
+    if style >= 4 && d.len() > 1 {
+        // directed cuts. 4: next to multiples of the byte reader's 128-byte window (counted from the NAL start and from the
+        // payload start); 5: right after bytes a look-ahead may stop at (80, 00, 03, ff)
+        let mut cuts: Vec<usize> = vec![];
+        if style == 4 { let mut k = 128; while k <= d.len() + 2 { for e in [0usize, 1, 2] { if r.below(2) == 0 && k + e >= 1 { cuts.push(k + e - 1); } } k += 128; } if cuts.is_empty() { cuts.push(1 + r.below(d.len() as u64 - 1) as usize); } }
+        else { for j in 1..d.len() { if matches!(d[j - 1], 0x80 | 0 | 3 | 0xff) && r.below(3) == 0 { cuts.push(j); } } if cuts.len() > 6 { let keep = r.below(cuts.len() as u64 - 5) as usize; cuts = cuts[keep..keep + 6].to_vec(); } }
+        cuts.retain(|&c| c > 0 && c < d.len()); cuts.sort(); cuts.dedup();
+        for c in cuts { out.push(d[i..c].to_vec()); i = c; }
+        out.push(d[i..].to_vec());
+        return out;
+    }
     while i < d.len() {
         let k = 1 + match style { 0 => d.len(), 1 => r.below(3) as usize, _ => match r.below(5) { 0 => 0, 1 => 1, 2 => r.below(5) as usize, 3 => r.below(200) as usize, _ => 126 + r.below(4) as usize } };
         let e = (i + k).min(d.len()); out.push(d[i..e].to_vec()); i = e;
@@ -110,7 +121,25 @@ fn gen_annexb_exhaustive(maxlen: usize, out: &mut dyn Write) {
     }
 }
 
+/// NAL bytes built from segments whose boundaries sit on or next to multiples of the 128-byte window: zero-free runs
+/// ending at 128k-2 … 128k+2 (from the NAL start or the payload start), escape sequences, bursts of zeros and threes
+fn long_nal(r: &mut Rng) -> Vec<u8> {
+    let mut d = vec![0x65u8];
+    for _ in 0..(2 + r.below(5)) {
+        match r.below(6) {
+            0 | 1 | 2 => { let target = (r.below(2) + 128 * (1 + r.below(3))) as i64 + r.below(5) as i64 - 2; let cur = d.len() as i64;
+                       let len = if target > cur { (target - cur) as usize } else { 1 + r.below(130) as usize };
+                       for _ in 0..len { d.push(1 + (r.next() % 255) as u8); } }
+            3 => { d.extend_from_slice(&[0, 0, 3]); d.push(r.pick8(&[0, 1, 2, 3])); }
+            4 => { for _ in 0..(1 + r.below(3)) { d.extend_from_slice(&[0, 0, 3]); d.push(r.pick8(&[0, 1, 3])); } }
+            _ => d.extend(stream_bytes(r, 12, &[0, 0, 0, 3, 3, 1, 2, 4, 0x55])),
+        }
+    }
+    d
+}
+
 fn rbsp_nal(r: &mut Rng) -> Vec<u8> {
+    if r.below(5) == 0 { return long_nal(r); }
     let maxlen = if r.below(4) == 0 { 400 } else { 40 };
     let mut d = match r.below(4) {
         // long zero-free run first so that windows of 128 are crossed before the first escape
@@ -127,7 +156,7 @@ fn gen_rbsp(r: &mut Rng, out: &mut dyn Write) {
     let d = rbsp_nal(r);
     let chunks = nonempty_partition(r, &d);
     let complete = r.below(3) != 0;
-    let skip = r.pick8(&[0, 1, 1, 1, 2, 5]);
+    let skip = if r.below(8) == 0 { r.pick(&[127, 128, 129, 130, 200, 255, 256, 300]) } else { r.pick(&[0, 1, 1, 1, 2, 5]) };
     let mut ops = vec![];
     let style = r.below(4);
     for _ in 0..(3 + r.below(40)) {
@@ -162,6 +191,14 @@ fn gen_rbsp_exhaustive(maxlen: usize, out: &mut dyn Write) {
 }
 
 fn gen_decodenal(r: &mut Rng, out: &mut dyn Write) {
+    if r.below(300) == 0 {
+        // far beyond any internal window: escape-free (must be borrowed), or with a single escape at the very end (owned)
+        let len = r.pick(&[65535, 65536, 65537, 65538, 70000, 131073]) as usize;
+        let mut d: Vec<u8> = vec![0x65]; for _ in 0..len { d.push(if r.below(16) == 0 { 0 } else { 1 + (r.next() % 255) as u8 }); }
+        for j in 2..d.len() { if d[j - 1] == 0 && d[j - 2] == 0 && d[j] <= 3 { d[j] = 4; } }
+        if r.below(3) == 0 { d.extend_from_slice(&[0, 0, 3, 1]); }
+        writeln!(out, "decodenal {}", hex(&d)).unwrap(); return;
+    }
     let d = if r.below(40) == 0 { vec![] } else { rbsp_nal(r) };
     let d = if r.below(30) == 0 { d[..1.min(d.len())].to_vec() } else { d };
     writeln!(out, "decodenal {}", if d.is_empty() { "-".to_string() } else { hex(&d) }).unwrap();
@@ -222,13 +259,19 @@ fn gen_sei(r: &mut Rng, out: &mut dyn Write) {
 }
 
 fn gen_avcc(r: &mut Rng, out: &mut dyn Write) {
-    let mut d = vec![if r.below(8) == 0 { r.pick8(&[0, 2, 255]) } else { 1 }, r.pick8(&[0x42, 0x42, 0x64, 0x4d]), r.next() as u8, r.pick8(&[0x1e, 0x0b, 0x28]), 0xfc | r.below(4) as u8];
+    // header bytes: every profile_idc the library names, levels from the level table (9, 11 = the Level 1b codings), compatibility with
+    // each constraint flag set or clear
+    let prof = if r.below(3) == 0 { r.next() as u8 } else { r.pick8(&[66, 66, 77, 88, 100, 100, 110, 122, 244, 44, 83, 86, 118, 128, 138, 139, 134, 135]) };
+    let lvl = if r.below(4) == 0 { r.next() as u8 } else { r.pick8(&[9, 10, 11, 11, 12, 13, 20, 21, 22, 30, 31, 32, 40, 41, 42, 50, 51, 52, 60, 61, 62]) };
+    let mut d = vec![if r.below(8) == 0 { r.pick8(&[0, 2, 255]) } else { 1 }, prof, if r.flag() { r.next() as u8 } else { r.pick8(&[0, 0x10, 0x80, 0xc0, 0xe0, 0xf0, 0x08, 0x04, 0x14, 0xff, 0xef]) }, lvl, 0xfc | r.below(4) as u8];
     if r.below(10) == 0 { d[4] = r.next() as u8; }
     // parameter sets: mostly real ones so that create_context gets past the first NAL
     let mk_sps = |r: &mut Rng, prof: u8, compat: u8, lvl: u8| -> Vec<u8> {
         let mut w = W::default(); w.u(8, prof as u64).u(8, compat as u64).u(8, lvl as u64).ue(r.below(3)).ue(0).ue(0).ue(0).ue(1).b(false).ue(r.below(20)).ue(r.below(20)).b(true).b(false).b(false).b(false);
         let mut n = vec![0x67u8]; n.extend(escape(&w.trail())); n
     };
+    // a valid parameter-set NAL followed by raw zero bytes (no emulation prevention): 00 00 00 inside a NAL is forbidden
+    let raw_zeros = |r: &mut Rng, mut nal: Vec<u8>| -> Vec<u8> { if r.below(10) == 0 { while nal.last() == Some(&3) || nal.last() == Some(&0) { nal.pop(); } for _ in 0..(2 + r.below(3)) { nal.push(0); } if r.below(3) == 0 { nal.push(r.pick8(&[0, 1, 2, 0x80])); } } nal };
     let mk_pps = |r: &mut Rng| -> Vec<u8> {
         let mut w = W::default(); w.ue(r.below(3)).ue(r.below(3)).b(false).b(false).ue(0).ue(0).ue(0).b(false).u(2, 0).se(0).se(0).se(0).b(false).b(false).b(false);
         let mut n = vec![0x68u8]; n.extend(escape(&w.trail())); n
@@ -241,13 +284,13 @@ fn gen_avcc(r: &mut Rng, out: &mut dyn Write) {
     let (p, c, l) = (d[1], d[2], d[3]);
     for _ in 0..nsps {
         let nal = match r.below(8) { 0 => vec![], 1 => vec![r.pick8(&[0x67, 0x68, 0xe7, 0x07])], 2 => { let mut v = vec![r.pick8(&[0x67, 0x67, 0x68, 0xe7])]; for _ in 0..r.below(5) { v.push(r.next() as u8); } v }
-            3 => { let pr = r.pick8(&[0x42, 0x64]); mk_sps(r, pr, c, l) } _ => mk_sps(r, p, c, l) };
+            3 => { let pr = r.pick8(&[0x42, 0x64]); mk_sps(r, pr, c, l) } _ => { let n = mk_sps(r, p, c, l); raw_zeros(r, n) } };
         let nal = match long_len { Some(ll) if entry_no == long_at => pad_to(nal, ll), _ => nal }; entry_no += 1;
         d.push((nal.len() >> 8) as u8); d.push(nal.len() as u8); d.extend(nal);
     }
     let npps = if r.below(20) == 0 { 255 } else { r.below(3) }; d.push(npps as u8);
     for _ in 0..npps {
-        let nal = match r.below(8) { 0 => vec![], 1 => vec![r.pick8(&[0x68, 0x67, 0xe8])], 2 => { let mut v = vec![r.pick8(&[0x68, 0x68, 0x67, 0xe8])]; for _ in 0..r.below(5) { v.push(r.next() as u8); } v } _ => mk_pps(r) };
+        let nal = match r.below(8) { 0 => vec![], 1 => vec![r.pick8(&[0x68, 0x67, 0xe8])], 2 => { let mut v = vec![r.pick8(&[0x68, 0x68, 0x67, 0xe8])]; for _ in 0..r.below(5) { v.push(r.next() as u8); } v } _ => { let n = mk_pps(r); raw_zeros(r, n) } };
         let nal = match long_len { Some(ll) if entry_no == long_at => pad_to(nal, ll), _ => nal }; entry_no += 1;
         d.push((nal.len() >> 8) as u8); d.push(nal.len() as u8); d.extend(nal);
     }
@@ -469,13 +512,15 @@ pub fn gen_slice(r: &mut Rng, spss: &[SpsInfo], ppss: &[PpsInfo]) -> (u8, Vec<u8
     if p.redundant { w.ue(if f.hit(r, 6) { 128 } else if r.below(6) == 0 { 127 } else { r.below(5) }); }
     if fam == 1 { w.b(r.flag()); }
     let mut l0 = p.l0;
-    if fam == 0 || fam == 3 || fam == 1 { let o = r.flag(); w.b(o); if o { l0 = if f.hit(r, 6) { 32 } else if r.below(8) == 0 { 31 } else { r.below(3) }; w.ue(l0); if fam == 1 { w.ue(if f.hit(r, 6) { 32 } else if r.below(8) == 0 { 31 } else { r.below(3) }); } } }
+    let want_heavy = r.below(6) == 0 && p.wp && (fam == 0 || fam == 3);   // 32 references, long weight table (header beyond 128 bytes)
+    if fam == 0 || fam == 3 || fam == 1 { let o = want_heavy || r.flag(); w.b(o); if o { l0 = if want_heavy { 31 } else if f.hit(r, 6) { 32 } else if r.below(8) == 0 { 31 } else { r.below(3) }; w.ue(l0); if fam == 1 { w.ue(if f.hit(r, 6) { 32 } else if r.below(8) == 0 { 31 } else { r.below(3) }); } } }
     let lists = match fam { 2 | 4 => 0, 1 => 2, _ => 1 };
     for _ in 0..lists { let mf = r.below(3) == 0; w.b(mf); if mf { for _ in 0..r.below(4) { let idc = if f.hit(r, 8) { 4 } else { r.below(3) }; w.ue(idc); w.ue(small_ue(r)); } w.ue(3); } }
     if (p.wp && (fam == 0 || fam == 3)) || (p.wb == 1 && fam == 1) {
         let chroma = !s.separate && s.chroma_idc != 0;
         w.ue(if f.hit(r, 8) { 8 } else { r.below(8) }); if chroma { w.ue(if f.hit(r, 8) { 8 } else { r.below(8) }); }
-        if l0 <= 31 { for _ in 0..=l0 { let lf = r.flag(); w.b(lf); if lf { let a = rng_se(r, &mut f, -128, 127); let b = rng_se(r, &mut f, -128, 127); w.se(a).se(b); } if chroma { let cf = r.flag(); w.b(cf); if cf { for _ in 0..4 { let a = rng_se(r, &mut f, -128, 127); w.se(a); } } } } }
+        let heavy = if want_heavy || r.below(8) == 0 { Some(8 + r.below(24)) } else { None };   // first k entries with every weight, the rest bare flags
+        if l0 <= 31 { for e in 0..=l0 { let lf = match heavy { Some(k) => e < k, None => r.flag() }; w.b(lf); if lf { let a = if heavy.is_some() { r.pick(&[127, 126, 100]) as i64 * if r.flag() { 1 } else { -1 } } else { rng_se(r, &mut f, -128, 127) }; let b = rng_se(r, &mut f, -128, 127); w.se(a).se(b); } if chroma { let cf = match heavy { Some(k) => e < k, None => r.flag() }; w.b(cf); if cf { for _ in 0..4 { let a = rng_se(r, &mut f, -128, 127); w.se(a); } } } } }
     }
     if ref_idc != 0 {
         if nal_type == 5 { w.b(r.flag()).b(r.flag()); }
@@ -546,6 +591,14 @@ pub fn to_nal(hdr: u8, rbsp: &[u8]) -> Vec<u8> { let mut n = vec![hdr]; n.extend
 
 pub fn gen_sei_rbsp(r: &mut Rng) -> Vec<u8> {
     let mut d = vec![];
+    if r.below(5) == 0 {
+        // user_data_unregistered of 100..520 bytes: a zero-free run that ends next to a multiple of 128 (NAL offsets),
+        // then zeros (escaped by the NAL writer), so that emulation prevention starts right behind a window / chunk end
+        let run = (128 * (1 + r.below(3)) + r.below(5)) as usize - 4 + r.below(3) as usize; let tail = 3 + r.below(12) as usize;
+        sei_u32(&mut d, 5); sei_u32(&mut d, (run + tail) as u64);
+        for _ in 0..run { d.push(1 + (r.next() % 255) as u8); }
+        for _ in 0..tail { d.push(r.pick8(&[0, 0, 0, 1, 3, 0x80])); }
+    }
     for _ in 0..(1 + r.below(3)) {
         let ty = match r.below(8) { 0 => 128, 1 => 255, 2 => 510, 3 => 200 + r.below(70000), _ => r.below(10) };
         let len = match r.below(6) { 0 => 0, 1 => 255, 2 => 256, _ => r.below(6) };
@@ -579,10 +632,18 @@ fn gen_nal(r: &mut Rng, n: usize, out: &mut dyn Write) {
             let ppss = vec![pinfo];
             for _ in 0..2 {
                 let (hdr, mut d) = gen_slice(r, &spss, &ppss);
-                for _ in 0..r.below(20) { d.push(r.pick8(&[0, 0, 1, 3, 0xff, 0x55])); }
+                while d.last() == Some(&0) { d.pop(); }
+                let hdr_len = d.len();   // header bits end in the last byte or in the one before
+                if r.below(3) == 0 { let l = d.len(); if d[l - 1] == 0x80 { d.pop(); } }   // byte-aligned header: slice data starts right there
+                d.push(r.pick8(&[0x80, 0x80, 0x00, 0x5a, 0xff])); 
+                for _ in 0..r.below(20) { d.push(r.pick8(&[0, 0, 1, 3, 0xff, 0x55, 0x80])); }
+                if d.last() == Some(&0) { d.push(0x80); }
                 if hdr & 0x1f == 20 { continue; }
                 let nal = to_nal(hdr, &d);
                 emit_prefixes(r, &nal, out, &mut count, true);
+                // two-way splits next to the end of the header (where the parser asks whether slice data follows)
+                let hl = 1 + escape(&d[..hdr_len.min(d.len())]).len();
+                for c in [hl.saturating_sub(2), hl.saturating_sub(1), hl, hl + 1] { if c >= 1 && c < nal.len() && r.below(2) == 0 { writeln!(out, "nal {},{} 1", hex(&nal[..c]), hex(&nal[c..])).unwrap(); count += 1; } }
             }
         }
         let sei = to_nal(0x06, &gen_sei_rbsp(r));
@@ -621,14 +682,21 @@ fn gen_stream(r: &mut Rng, n: usize, out: &mut dyn Write) {
                        nals.push(to_nal(hdr, &d)); }
             }
         }
-        let mut s = vec![];
+        let mut s = vec![]; let mut starts: Vec<usize> = vec![];
         for _ in 0..r.below(3) { s.push(0); }
         for (i, nal) in nals.iter().enumerate() {
             for _ in 0..r.pick(&[0, 0, 1, 1, 2, 5]) { s.push(0); }
-            s.extend_from_slice(&[0, 0, 1]); s.extend_from_slice(nal);
+            s.extend_from_slice(&[0, 0, 1]); starts.push(s.len()); s.extend_from_slice(nal);
             if i + 1 == nals.len() { if r.below(3) == 0 { for _ in 0..(3 + r.below(3)) { s.push(0); } } }
         }
-        let parts = partition(r, &s);
+        let parts = if r.below(3) == 0 {
+            // pushes that end when the accumulated NAL is 128k, 128k+1 or 128k+2 bytes long
+            let mut cuts: Vec<usize> = vec![];
+            for st in &starts { let mut k = 128; while k < 600 { for e in [0usize, 1, 2] { if r.below(2) == 0 { cuts.push(st + k + e); } } k += 128; } }
+            for _ in 0..r.below(4) { cuts.push(r.below(s.len() as u64 + 1) as usize); }
+            cuts.retain(|&c| c > 0 && c < s.len()); cuts.sort(); cuts.dedup();
+            let mut out = vec![]; let mut i = 0; for c in cuts { out.push(s[i..c].to_vec()); i = c; } out.push(s[i..].to_vec()); out
+        } else { partition(r, &s) };
         let mut line = String::from(if r.below(3) == 0 { "stream H" } else { "stream B" });
         for p in &parts { line.push_str(&format!(" p:{}", hex(p))); }
         line.push_str(" r");
